@@ -61,7 +61,7 @@ def check_bv(tree, spell, use_z3=True):
         try:
             s = fn(r)
         except Exception as e:  # noqa: BLE001 - any exception is an observation here
-            fails.append((f"raises:{name}:{exprcheck.exc_fingerprint(e)}", {"tree": ir.pretty(tree), "exc": repr(e)[:200]}))
+            fails.append((f"raises:{name}:{exprcheck.exc_fingerprint(e)}", {"tree": ir.pretty(tree), "exc": repr(e)[:200], "cause": repr(e.__cause__)[:200]}))
             continue
         new = ops_of(s) - ops_of(r)
         if s is not r:
@@ -113,10 +113,10 @@ def check_other(fam, tree, spell, envs):
             if name == "backends.z3.simplify" and fam == "str":
                 info["classes"].append("z3-declined(strings)")
                 continue
-            fails.append((f"raises:{name}:{fam}:{exprcheck.exc_fingerprint(e)}", {"tree": mod.pretty(tree), "exc": repr(e)[:200]}))
+            fails.append((f"raises:{name}:{fam}:{exprcheck.exc_fingerprint(e)}", {"tree": mod.pretty(tree), "exc": repr(e)[:200], "cause": repr(e.__cause__)[:200]}))
             continue
         except Exception as e:  # noqa: BLE001
-            fails.append((f"raises:{name}:{fam}:{exprcheck.exc_fingerprint(e)}", {"tree": mod.pretty(tree), "exc": repr(e)[:200]}))
+            fails.append((f"raises:{name}:{fam}:{exprcheck.exc_fingerprint(e)}", {"tree": mod.pretty(tree), "exc": repr(e)[:200], "cause": repr(e.__cause__)[:200]}))
             continue
         new = ops_of(s) - ops_of(r)
         if s is not r:
@@ -313,6 +313,11 @@ def fp_shapes():
                 base.append((op, rm, x, y))
             base += [("fsqrt", rm, x), ("to_fp_fp", rm, x, o), ("to_fp_sbv", rm, b, srt), ("to_fp_ubv", rm, b, srt), ("to_sbv", rm, x, 32), ("to_ubv", rm, x, 8)]
         base.append(("ffp", ("var", "b0_1", 1), ("var", f"b1_{fc.EB[srt]}", fc.EB[srt]), ("var", f"b2_{fc.SB[srt] - 1}", fc.SB[srt] - 1)))
+        # conversions through very narrow bit-vectors (Z3's tactics fail on some of these terms)
+        for w in (1, 2):
+            for rm in ("RNE", "RTP"):
+                base.append(("flt", x, ("to_fp_sbv", "RNE", ("to_ubv", rm, x, w), srt)))
+                base.append(("fge", ("to_fp_ubv", rm, ("to_sbv", "RTZ", x, w), srt), y))
         for t in base:
             out.append(t)
             k = fc.kind(t)
